@@ -132,7 +132,7 @@ func init() {
 	sim.Register(&sim.Check{
 		ID: prop, Title: "Blocks built by an honest generator pass honest verification", World: "ledger",
 		Gen: genPlan, Exec: exec,
-		Quick: sim.Budget{Runs: 400, WallS: 70}, Thorough: sim.Budget{Runs: 9000, WallS: 1200},
+		Quick: sim.Budget{Runs: 320, WallS: 70}, Thorough: sim.Budget{Runs: 9000, WallS: 1200},
 		LevelText: "seeded pool histories (3-10 rounds quick, 4-30 thorough) against the shipped miner code on two chain instances: transactions are admitted through the shipped chain.PutTransaction (or written straight to the pool store for contents an honest pool holds after the state moved on) and every round the shipped miner.Chain.GenerateRoundBlock (-> GenerateBlock -> generateBlock: txnIterHandlerFunc, txnProcessorHandlerFunc, checkForCurrent, buildInTxns, hashAndSignGeneratedBlock, UpdatePendingBlock) builds a block as miner g; the block handed to VerifyBlockSender is encoded with the shipped datastore codec (msgpack or JSON), decoded into a fresh entity (ComputeProperties: client ids from public keys) and given to the shipped miner.Chain.VerifyRoundBlock (-> VerifyBlock: Validate, VerifyBlockMagicBlockReference, ValidateTransactions in batch goroutines, cost check, ComputeState, verifySmartContracts, SignBlock) running as another miner on a second chain (own node DB, own state cache) holding the same previous block. Oracles from the statement, evaluated on the block as received: verification passes; root, change count, outputs and statuses equal the generator's, also when recomputed on a third chain from a copy stripped of outputs; no transaction twice; per-sender nonces consecutive from the previous state's nonce; total cost (shipped estimator) within max_block_cost; each built-in function at most once; every client transaction was submitted, unaltered, correctly signed, within the time tolerance of the block and pays at least the estimated minimum fee; over the history no hash in two adopted blocks; the shipped FinalizeBlock removes a finalized block's transactions from the pool",
 		LevelNote: "pool contents: consecutive / used / gapped / far-future / duplicate / zero nonces, fees ample / exact / one below the minimum / zero / above the balance, values up to balance+1, creation dates now / about to expire / expired / ahead, sends, faucet pours, calls of every registered contract function, unknown functions, calls carrying the names of the built-in transactions, data transactions, byte-identical re-submissions (also of already included transactions), floods beyond the cost limit, senders include the miners' own wallets. Faults: pool store errors (MemStore.Fail on multiread / multidelete), slow collection (the proposal deadline expires inside IterateCollection on the simulated clock), round timeout during the collection, verifier with empty or warm state cache, verifier clock later by 1 s .. 1 h, verifier or generator with a lagging latest finalized block, cancelled verifier context, min_block_size above the pool size (the insufficient-transactions retry loop runs on the simulated clock). Swarm: 2-4 miners (each a generator of every round), validation batch size 1/2/3/7/1000 (selftest at GOMAXPROCS 1/4/16: identical event logs), block cost limit 2900-10000 with transfer cost 10-400, byte limit, future-nonce window 3/10, time tolerance 30/600 s, storage-contract periods so that generate_challenge / blobber_block_rewards / commit_settings_changes built-ins occur. BYPASSED, sim-owned instead: HTTP/n2n transport and the verify-block message handler chain (VerifyBlockSender captured, VerifyRoundBlock called directly), VRF/DKG (round seed set with Chain.SetRandomSeed), notarization (a block is adopted after one successful verification, no tickets), finalization workers (the sim calls SaveChanges, SetLatestFinalizedBlock and the shipped miner FinalizeBlock), redis (in-memory datastore.Store; the collection score follows memorystore.writeAux: fee, else negated write time), the redis-only transaction CleanupWorker, client discovery (SaveClients), view change / magic block changes. Only the bls0chain client scheme is explored (built-in transactions are signed with the miners' BLS node keys). The chain's validated-transaction cache has no writer in the tree and stays empty (with entries for a whole batch, BLS0ChainAggregateSignatureScheme.Verify dereferences nil and kills the process - latent, unreachable). A generation that returns an error is not a violation (no block); liveness is not claimed",
 		Technique:  "deterministic simulation: seeded pool histories with store, clock, cache and slow-generation faults; real generator against real verifier on a second chain instance; statement oracles on the block as received",
